@@ -27,6 +27,11 @@ def main():
         if got_ is not None and (isinstance(got_, dict) or tuple(got_) != (b_, e_)):
             c.violation(f"standard-prefix:{n_}", f"the prefix {n_} is registered as {got_}; the standard defines it as {b_}**{e_}", {"prefix": n_, "registered": got_, "standard": [b_, e_],
                         "how": f"(1 * ({n_} * Meter)).unprefixed().magnitude against {b_}**{e_}"})
+    # ---- every power of two between 2^-200 and 2^200 against decimal prefixes, from either side
+    sw = impl("prefixsem_worker.py", {"cases": [], "sweep": True})
+    for i_ in range(sw["sweep_n"] // 100): c.count(["prefix-sweep", i_], nontrivial=True)
+    for f_ in sw["sweep_fails"]:
+        c.violation(f"relation:mixed-scale:{f_[0]}", f"with b = 2**{f_[1]} and d = {f_[2]}, {f_[0]} has the numeric scale {f_[3]}; 2**{f_[1]} * {f_[2]} is {f_[4]:.12g}", {"expression": f_[0], "binary_exponent": f_[1], "decimal_prefix": f_[2], "got": f_[3], "want": f_[4]})
     # ---- relations on the implementation: prefix x prefix x exponent grid exhaustive, units/magnitudes sampled
     rel = []
     for p in prefixes:
